@@ -31,7 +31,7 @@ LEVEL_TEXT = ("Fault enumeration: each fault class named by the property is appl
 LEVEL_NOTE = "Trusts ref_sgml.py; truncation inside a multi-byte UTF-8 sequence is done at character level (the header layer is C05's business)."
 DESIGN_REF = "DESIGN.md §3 C08"
 MIN_COUNTERS = {"quick": {"illformed_cases": 20000, "benign_cases": 500, "via_OFXTree_parse": 500},
-                "thorough": {"illformed_cases": 300000, "benign_cases": 5000, "via_OFXTree_parse": 5000}}
+                "thorough": {"illformed_cases": 1000000, "benign_cases": 8000, "via_OFXTree_parse": 100000}}
 
 TOKEN_RE = re.compile(r"<[^<>]*>")
 V1HDR = "OFXHEADER:100\r\nDATA:OFXSGML\r\nVERSION:160\r\nSECURITY:NONE\r\nENCODING:UNICODE\r\nCHARSET:NONE\r\nCOMPRESSION:NONE\r\nOLDFILEUID:NONE\r\nNEWFILEUID:NONE\r\n\r\n"
@@ -60,7 +60,15 @@ def lib_tree(text):
     return t.parse(io.BytesIO((V1HDR + text).encode("utf_8")))
 
 
+AMBIGUOUS_CDATA = re.compile(r"<([A-Z0-9._]+)><!\[CDATA\[(?:(?!\]\]>).)*\]\]>\s+</\1>", re.S)
+
+
 def judge(ctx, text, fault, via_tree=False):
+    if AMBIGUOUS_CDATA.search(text):
+        # whitespace between ']]>' and an end tag of the same name: UNSPECIFIED layout (is it the element's own end tag or
+        # its parent's?) - the generator never writes it, but fault pairs can produce it
+        ctx.count("unspecified_whitespace_after_cdata")
+        return
     ctx.ev()
     try:
         want = ref_sgml.parse(text)
@@ -75,6 +83,15 @@ def judge(ctx, text, fault, via_tree=False):
         exc = None
     except Exception as e:  # any error is a refusal
         root, exc = None, e
+    if ill is not None and ill.startswith("unterminated tag at "):
+        # a dangling '<...' fragment AFTER an otherwise complete document is not one of the property's faults
+        # (the document is not "cut off before its final end tag"); the tokenizer skips it.  Only reachable by fault pairs.
+        try:
+            ref_sgml.parse(text[: int(ill.rsplit(" ", 1)[1])])
+            ctx.count("unspecified_trailing_fragment_after_complete_document")
+            return
+        except (ref_sgml.RefError, ValueError):
+            pass
     if ill is not None:
         ctx.count("illformed_cases")
         if exc is None and root is not None:
@@ -147,8 +164,10 @@ def faults(text, rng, every_char, limit):
     for c in cuts:
         if c <= last_close:
             yield text[:c], {"kind": "truncate", "at": c}
+    if not toks:
+        return
     ends = agg_end_tags(text)
-    names = sorted({t[1:-1] for _, _, t in toks if not t.startswith("</") and not t.startswith("<!")})
+    names = sorted({t[1:-1] for _, _, t in toks if not t.startswith("</") and not t.startswith("<!")}) or ["ZZ"]
     pick = ends if len(ends) <= limit // 4 else rng.sample(ends, limit // 4)
     for (s, e, name) in pick:
         yield text[:s] + text[e:], {"kind": "delete-end", "tag": name, "at": s}
@@ -199,7 +218,7 @@ def bodies(ctx):
     rng = ctx.rng
     classes = list(ref_decl.all_classes().items())
     forms = [(203, False, True), (220, True, True), (102, False, True), (160, True, True), (103, False, False), (151, True, False)]
-    per = 1 if ctx.tier == "quick" else 4
+    per = 1 if ctx.tier == "quick" else 24
     for ci, (name, cls) in enumerate(classes):
         if ci % ctx.nshards != ctx.shard:
             continue
@@ -221,7 +240,7 @@ def bodies(ctx):
             if len(body) > 6000:
                 continue
             yield body, {"src": "library", "cls": name, "form": [ver, pretty, close], "seedstr": seedstr}
-    n = (60 if ctx.tier == "quick" else 600) // 1
+    n = 60 if ctx.tier == "quick" else 1500
     for j in range(n):
         tree = render.random_tree(rng, maxnodes=rng.choice([5, 12, 40]), maxdepth=6)
         yield render.random_rendering(tree, rng), {"src": "render", "j": j}
